@@ -222,9 +222,26 @@ type fakeTurn struct {
 	reply  chan string // "ok" | "fail"
 	idx    int
 	conn   net.PacketConn
+	done   chan struct{}
+	once   sync.Once
 }
 
-func (t *fakeTurn) Listen() error { return nil }
+// Listen starts the client's reader goroutine, as the real client does: it lives until the client is closed or
+// the socket to the server is (a client that is never closed on a socket that is never closed is a leaked goroutine).
+func (t *fakeTurn) Listen() error {
+	var sockClosed <-chan struct{}
+	if gs, ok := t.conn.(*gSock); ok {
+		sockClosed = gs.closed
+	}
+	go func() {
+		select {
+		case <-t.done:
+		case <-sockClosed:
+		}
+	}()
+
+	return nil
+}
 func (t *fakeTurn) Allocate() (net.PacketConn, error) {
 	timer := time.NewTimer(8 * time.Second) // the real client gives up after its retransmissions
 	defer timer.Stop()
@@ -249,7 +266,10 @@ func (t *fakeTurn) Allocate() (net.PacketConn, error) {
 
 	return gs, nil
 }
-func (t *fakeTurn) Close() { t.gw.fn.noteClose(t.res) }
+func (t *fakeTurn) Close() {
+	t.once.Do(func() { close(t.done) })
+	t.gw.fn.noteClose(t.res)
+}
 
 // ---------------------------------------------------------------- world
 
@@ -429,7 +449,7 @@ func newGatherWorld(raw json.RawMessage) *gatherWorld {
 	a.turnClientFactory = func(c *turn.ClientConfig) (turnClient, error) {
 		gw.fn.mu.Lock()
 		defer gw.fn.mu.Unlock()
-		t := &fakeTurn{gw: gw, server: c.TURNServerAddr, reply: make(chan string, 1), idx: len(gw.turns), conn: c.Conn}
+		t := &fakeTurn{gw: gw, server: c.TURNServerAddr, reply: make(chan string, 1), idx: len(gw.turns), conn: c.Conn, done: make(chan struct{})}
 		t.res = gw.fn.newRes("turnclient", c.TURNServerAddr)
 		gw.turns = append(gw.turns, t)
 
